@@ -219,6 +219,12 @@ def d1_lists(chk: Check) -> None:
                 rets = _returns(tail)
                 if not rets or rets[-1] != lhs:
                     problems.append("the merged left side is not returned")
+                elif any(r != lhs for r in rets):
+                    problems.append(
+                        "some path returns `{}` instead of the left side "
+                        "merged in place: callers at a non-root merge point "
+                        "rely on the mutation and drop the return value"
+                        .format([r for r in rets if r != lhs][0]))
                 if not apps:
                     problems.append("no right element is ever added")
                 loops = [x for s in tail for x in ast.walk(s)
@@ -726,6 +732,103 @@ def d1g_own_keys_survive(chk: Check) -> None:
                      "value reverts to the inherited one")
 
 
+def d1h_list_routing(chk: Check) -> None:
+    """_merge_lists routes by the shape of the right-hand list: a non-empty
+    list whose first element is a hash goes to the Array-of-Hashes merger,
+    any other non-empty list to the plain merger, an empty one changes
+    nothing.  (The AoH merger's LEFT / RIGHT policies keep or replace whole
+    lists: an empty right-hand list routed there wipes the left one.)"""
+    from sa.guards import facts_at
+    prog = chk.prog
+    chk.rule("C05-D1h", "_merge_lists: the Array-of-Hashes merger is reached "
+             "only for a non-empty right-hand list whose first element is a "
+             "hash, the plain merger only for another non-empty list",
+             floor=2)
+    fi = prog.func("Merger._merge_lists")
+    chk.analysed(fi)
+    rhs = fi.params()[2]
+
+    def shape_facts(call: ast.Call) -> Tuple[bool, Optional[bool]]:
+        nonempty = False
+        first_map: Optional[bool] = None
+        for f in facts_at(call):
+            if f.kind != "cond":
+                continue
+            t = src(f.expr).replace(" ", "")
+            if f.pol and t in ("len({})>0".format(rhs),
+                               "len({})>=1".format(rhs), rhs):
+                nonempty = True
+            if isinstance(f.expr, ast.Call) and \
+                    src(f.expr.func) == "isinstance" and \
+                    src(f.expr.args[0]) == rhs + "[0]" and \
+                    ("Map" in src(f.expr.args[1]) or
+                     "dict" in src(f.expr.args[1])):
+                first_map = f.pol
+        return nonempty, first_map
+    for callee, want_map in (("_merge_arrays_of_hashes", True),
+                             ("_merge_simple_lists", False)):
+        calls = [c for c in walk_local(fi.node) if isinstance(c, ast.Call)
+                 and src(c.func).endswith("." + callee)]
+        if len(calls) != 1:
+            raise AnalysisError("call of {} in _merge_lists not found".format(
+                callee))
+        nonempty, first_map = shape_facts(calls[0])
+        text = "route to " + callee
+        if nonempty and first_map is want_map:
+            chk.ok("C05-D1h", fi, calls[0], text,
+                   "under len({}) > 0 and first element {} a hash".format(
+                       rhs, "is" if want_map else "is not"))
+        else:
+            chk.fail("C05-D1h", fi, calls[0], text,
+                     "reached with non-empty={} / first-element-is-hash={} "
+                     "established by the guards: an empty or mixed "
+                     "right-hand list is merged under the wrong policy"
+                     .format(nonempty, first_map))
+
+
+def d2e_prepare_after_anchors(chk: Check) -> None:
+    """Anchor conflict resolution replaces nodes *of the right-hand
+    document* (LEFT policy: by the left-hand node).  Per-path rules are
+    matched against right-hand nodes by value and position, so they must be
+    prepared on the document as it is merged: after the resolution."""
+    from sa.flow import Flow
+    prog = chk.prog
+    chk.rule("C05-D2e", "merge_with prepares the per-path rules after "
+             "anchor conflicts have been resolved, on every path", floor=1)
+    fi = prog.func("Merger.merge_with")
+    chk.analysed(fi)
+    bad: List[ast.AST] = []
+    seen = {"prepare": 0}
+
+    def transfer(stmt: ast.stmt, st, flow):
+        for c in ast.walk(stmt):
+            if isinstance(c, ast.Call):
+                f = src(c.func)
+                if f.endswith("._resolve_anchor_conflicts"):
+                    st = True
+                elif f.endswith(".config.prepare"):
+                    seen["prepare"] += 1
+                    if not st:
+                        bad.append(c)
+        return [st]
+
+    def branch(test: ast.AST, st, flow):
+        return [st], [st]
+    Flow(transfer, branch).run(fi.node.body, [False])
+    if not seen["prepare"]:
+        raise AnalysisError("merge_with no longer prepares the rules")
+    if bad:
+        chk.fail("C05-D2e", fi, bad[0], src(bad[0]),
+                 "the rules are prepared before anchor conflicts are "
+                 "resolved: a rule matched to a right-hand node that the "
+                 "resolution then replaces no longer applies, and the "
+                 "default policy is used instead")
+    else:
+        chk.ok("C05-D2e", fi, fi.node, "prepare after resolution",
+               "every path reaching config.prepare() has passed "
+               "_resolve_anchor_conflicts()")
+
+
 # ---------------------------------------------------------------- D3 ------
 def d3_exceptions(chk: Check) -> None:
     prog = chk.prog
@@ -841,7 +944,9 @@ def run(chk: Check) -> None:
     d2_ladders(chk)
     d2b_rule_lookup(chk)
     d1g_own_keys_survive(chk)
+    d1h_list_routing(chk)
     d2c_per_rule_handler(chk)
     d2d_rules_per_document(chk)
+    d2e_prepare_after_anchors(chk)
     d3_exceptions(chk)
     d4_from_str(chk)
